@@ -205,7 +205,8 @@ SHARED = [("C03", "mstep_ml", ["C03.m.weights", "C03.m.means", "C03.m.variances"
 REPLAY = [("C10", "iv_repro.py", "all", {}), ("C05", "gmm_repro.py", "map_mstep", {}), ("C13.kmeans", "kmeans_repro.py", "empty_cluster", {}), ("C13.gmm.init", "kmeans_repro.py", "empty_cluster", {}),
           ("C13.gmm.ml", "gmm_repro.py", "starved", {"trainer": "ml"}), ("C13.gmm.map", "gmm_repro.py", "starved", {"trainer": "map"}),
           ("C13.gmm.weights", "gmm_repro.py", "starved", {"trainer": "ml"}), ("C13.gmm_mstep", "gmm_repro.py", "starved", {"trainer": "map"}),
-          ("C13.gmm", "gmm_repro.py", "starved", {"trainer": "map"})]
+          ("C13.gmm", "gmm_repro.py", "starved", {"trainer": "map"}), ("C05.def", "gmm_repro.py", "starved", {"trainer": "map"}),
+          ("C17.set", "gmm_repro.py", "ll", {}), ("C17", "gmm_repro.py", "ll", {})]
 TRUSTED = ["np.clip / np.where / np.maximum as in the NumPy model", "overflow to +-inf for astronomically large data is not modelled"]
 ASSUMPTIONS = ["finite inputs; floors, count floor, relevance factor > 0; fixed ratio < 1"]
 XCHECK = ['gmm', 'kmeans', 'ivector']
